@@ -967,6 +967,31 @@ pub fn big_programs() -> Vec<Program> {
         }
         out.push(Program::new(format!("BIG-parents#{}", roots_first as u32)).worker("A", ops).collector(1, true, 0));
     }
+    // (3b) parent lists of 9 and 12 spans in as many traces, unsampled ones first and last / first,
+    // second and last / in the middle; a child, a local scope, an attachment
+    for (n, unsampled) in [(9u32, vec![0u32, 8]), (9, vec![4]), (12, vec![0, 1, 11]), (12, vec![0, 5, 6, 11])] {
+        let mut ops = Vec::new();
+        for k in 0..n {
+            ops.push(Op::Root { slot: k, name: format!("r{k}"), trace: U128(0xB80 + k as u128), remote_parent: 0, sampled: !unsampled.contains(&k), props: vec![] });
+        }
+        let parents: Vec<u32> = (0..n).collect();
+        ops.push(child_of(20, "m", &parents));
+        ops.push(child(21, "mc", 20));
+        ops.push(scope(20));
+        ops.push(lenter("l"));
+        ops.push(levent("l.e"));
+        ops.push(pop());
+        ops.push(Op::ObserveLocal);
+        ops.push(pop());
+        ops.push(Op::ObserveSpan { slot: 21 });
+        ops.push(addprop(20, "m.k", "m.v"));
+        ops.push(finish(21));
+        ops.push(finish(20));
+        for k in 0..n {
+            ops.push(finish(k));
+        }
+        out.push(Program::new(format!("BIG-parents{n}#{}", unsampled.len())).worker("A", ops).collector(1, true, 0));
+    }
     // (4) twenty traces (root, child, local span) that all end between two cycles
     {
         let mut ops = Vec::new();
@@ -1017,9 +1042,9 @@ pub fn big_programs() -> Vec<Program> {
 /// cancelled while the ring is full), then the drain and a fresh trace.
 pub fn overload_many_parked_programs() -> Vec<Program> {
     let mut out = Vec::new();
-    for cancel_last in [true, false] {
+    for (cancel_last, n_parked) in [(true, 20u32), (false, 20), (true, 70), (true, 140), (false, 140)] {
         let mut ops = vec![Op::Warm, root(9, "via", 0x9F)];
-        for k in 0..20u32 {
+        for k in 0..n_parked {
             ops.push(root(100 + k, &format!("p{k}"), 0x9A00 + k as u128));
         }
         ops.push(root(0, "victim", 0x9AFF));
@@ -1030,7 +1055,7 @@ pub fn overload_many_parked_programs() -> Vec<Program> {
         if !cancel_last {
             ops.push(cancel(0));
         }
-        for k in 0..20u32 {
+        for k in 0..n_parked {
             ops.push(finish(100 + k));
         }
         if cancel_last {
@@ -1040,14 +1065,24 @@ pub fn overload_many_parked_programs() -> Vec<Program> {
         ops.push(child(2, "victim.late", 0));
         ops.push(finish(2));
         ops.push(finish(0));
+        // (with many parked commands: a cycle exactly between the victim's finish and the next send)
+        let staged = n_parked > 100;
+        if staged {
+            ops.push(sig(60));
+            ops.push(wait(61));
+        }
         ops.push(root(5, "fresh", 0x93));
         ops.push(finish(5));
         ops.push(finish(9));
-        let mut p = Program::new(format!("C09-ring-many-parked#{}", cancel_last as u32)).worker("A", ops);
+        let mut p = Program::new(format!("C09-ring-many-parked#{}.{n_parked}", cancel_last as u32)).worker("A", ops);
         p.actors.push(Actor {
             name: "collector".into(),
             kind: ActorKind::Collector { atomic: true, pop_yields: 0 },
-            ops: vec![Op::Wait(40), Op::Cycle, Op::Signal(50), Op::Cycle, Op::Cycle],
+            ops: if staged {
+                vec![Op::Wait(40), Op::Cycle, Op::Signal(50), Op::Wait(60), Op::Cycle, Op::Signal(61), Op::Cycle]
+            } else {
+                vec![Op::Wait(40), Op::Cycle, Op::Signal(50), Op::Cycle, Op::Cycle]
+            },
             after_exit_of: None,
         });
         out.push(p);
@@ -1283,6 +1318,27 @@ pub fn late_push_programs() -> Vec<Program> {
         vec![lenter("a"), pop(), Op::BusyWait { micros: 300 }, lenter("b"), levent("b.e"), Op::BusyWait { micros: 300 }],
         vec![lenter("a"), pop(), lenter("b"), Op::BusyWait { micros: 200 }, lenter("c"), pop(), Op::BusyWait { micros: 300 }],
         vec![levent("top.e"), lenter("a"), pop(), lenter("b"), lenter("c"), Op::BusyWait { micros: 300 }],
+        // attachments to a span after ten of its children, and a span left open with ten entries after it
+        {
+            let mut v = vec![lenter("a")];
+            for k in 0..10 {
+                v.push(lenter(&format!("a.c{k}")));
+                v.push(pop());
+            }
+            v.extend([levent("a.late.e"), lprop("a.late.k", "a.late.v"), pop()]);
+            v
+        },
+        {
+            let mut v = vec![lenter("a"), Op::BusyWait { micros: 300 }];
+            for k in 0..4 {
+                v.push(lenter(&format!("a.c{k}")));
+                v.push(levent(&format!("a.c{k}.e")));
+                v.push(pop());
+                v.push(lprop(&format!("a.k{k}"), "v"));
+            }
+            v.push(Op::BusyWait { micros: 300 });
+            v
+        },
     ];
     for shape in &shapes {
         let opens = shape.iter().filter(|o| matches!(o, Op::LocalEnter { .. })).count() as i32 - shape.iter().filter(|o| matches!(o, Op::Pop)).count() as i32;
